@@ -166,7 +166,7 @@ CHECKS = [
           "Native stack of min_sentences as a frame budget: rules_len() frames always suffice and the bound is attained (C17_min_sentences_depth_le_rules, "
           "_bound_tight, _chain_threshold); for every budget a chain grammar exhausts it (C17_min_sentences_depth_unbounded_refuted: known finding "
           "C17-min_sentences-recursion-depth). Tie: every query of every rule asked on its own on an overflow family, each panic classified against the certified "
-          "costs; min_sentences on chains of 501..12001 rules in processes of their own on 2 MiB stacks; min_sentences = its extracted mirror, list in order.",
+          "costs; min_sentences on chains of 501..12001 rules in processes of their own on 2 MiB stacks; min_sentences = its extracted mirror, list in order. Third known finding (second audit): min_sentences enumerates every simple path of a unit-production clique (C17_min_sentences_clique_copies on the mirror, m = 2..7; the implementation's lists equal the mirror's and the copy counts grow factorially: deterministic detector, no timing).",
   "design_ref": "DESIGN.md §5 C17",
   "note": _TB + "cost search code is unverified, only its certificate checkers are; FOLLOW is strict/textbook-bracketed when rules are unreachable. FIRST is over sentential forms (textbook reading); the frame-budget model is tied only through abort / answer at the measured depths; no complexity clause (min_sentence is exponential on a doubling chain).",
   "technique": "Coq proof (reference analyses exact; verified cost certificates) + exact differential against the implementation"},
